@@ -6,9 +6,10 @@
 (* a scripted set-up prefix that builds the object graph and warms the     *)
 (* access sites, and the alphabet of the free suffix) followed by a free   *)
 (* suffix of H operations.  At the end the behaviour is emitted as one     *)
-(* REPLAY line: every operation with the REFERENCE observation, the        *)
-(* predicted hit/miss of the implementation-shaped model, and the final    *)
-(* reference object graph.                                                 *)
+(* REPLAY line: every operation with the REFERENCE observation (e), the    *)
+(* observations the implementation-shaped model predicts for boa with      *)
+(* caches (ce) and without (ue), the predicted hit/miss, the flaw that     *)
+(* fires (tag), and the three final object graphs.                         *)
 (*                                                                         *)
 (* Canonical form (cuts duplicates, not behaviours of interest):           *)
 (*  - a free mutation is generated only if it changes the object graph;    *)
@@ -26,7 +27,7 @@ CONSTANTS H,        \* length of the free suffix
 
 VARIABLES cat, pc, nfree
 
-mcvars == <<objs, uq, shp, nextU, sites, log, cat, pc, nfree>>
+mcvars == <<objs, uq, glob, cst, ust, log, cat, pc, nfree>>
 
 -----------------------------------------------------------------------------
 (* operation records *)
@@ -38,6 +39,8 @@ X(o, k) == Op("X", o, k, "-", 0)
 P(o, p) == Op("P", o, "-", "-", p)
 F(o) == Op("F", o, "-", "-", 0)
 E(o) == Op("E", o, "-", "-", 0)
+NG(o, k) == Op("N", o, k, "-", 0)            \* global name lookup (o must be the object played by the global object)
+W(kind, k, n) == Op("W", n, k, kind, 0)      \* warm site <<kind, k>> with n foreign shapes
 
 \* descriptor kinds; t = position of the operation in the history (makes values and functions fresh)
 DescOf(d, k, t) ==
@@ -81,7 +84,8 @@ SiblingFocus ==   \* 1 and 3 share a shape and the prototype 2
     \cup {X(1, "a"), X(3, "a"), F(1), D(2, "a", "as"), X(2, "a"), P(3, 0)}
     \cup (IF Wide THEN {D(1, "b", "dw"), D(3, "b", "dw"), X(1, "b"), D(2, "a", "dw"), E(3)} ELSE {})
 
-CatEntry(u, pre, alpha) == [uq |-> u, pre |-> pre, alpha |-> alpha]
+CatEntry(u, pre, alpha) == [uq |-> u, glob |-> 0, pre |-> pre, alpha |-> alpha]
+GlobEntry(u, g, pre, alpha) == [uq |-> u, glob |-> g, pre |-> pre, alpha |-> alpha]
 
 Cat == <<
   \* 1: data property on the prototype, behind another property, get and set sites warm
@@ -109,11 +113,13 @@ Cat == <<
 >>
 
 -----------------------------------------------------------------------------
-IsAccess(op) == op.op \in {"G", "S"}
+IsAccess(op) == op.op \in {"G", "S", "N"}
 
 Do(op) ==
   LET t == Len(log) + 1
   IN \/ op.op = "G" /\ (GetHit(op.k, op.o) \/ GetMiss(op.k, op.o))
+     \/ op.op = "N" /\ (NameHit(op.k, op.o) \/ NameMiss(op.k, op.o))
+     \/ op.op = "W" /\ Warm(op.d, op.k, op.o)
      \/ op.op = "S" /\ (SetHit(op.k, op.o, 10 + t) \/ SetMiss(op.k, op.o, 10 + t))
      \/ op.op = "D" /\ Define(op.o, op.d, DescOf(op.d, op.k, t))
      \/ op.op = "X" /\ Delete(op.o, op.k)
@@ -127,7 +133,7 @@ Init ==
   /\ cat \in CatSel
   /\ pc = 1
   /\ nfree = 0
-  /\ InitWith(Cat[cat].uq)
+  /\ InitWith(Cat[cat].uq, Cat[cat].glob)
 
 Scripted ==
   /\ pc <= Len(Cat[cat].pre)
@@ -153,7 +159,8 @@ Spec == Init /\ [][Next]_mcvars
 Done == pc > Len(Cat[cat].pre) /\ nfree = H
 
 Emit ==
-  Done => PrintT(<<"REPLAY", ToJson([cat |-> cat, uq |-> uq, npre |-> Len(Cat[cat].pre), log |-> log, final |-> objs])>>)
+  Done => PrintT(<<"REPLAY", ToJson([cat |-> cat, uq |-> uq, glob |-> glob, npre |-> Len(Cat[cat].pre), log |-> log,
+                                     final |-> objs, cfinal |-> cst.O, ufinal |-> ust.O])>>)
 
 \* the model gate of the check: properties of the reference state and of the mechanism's bookkeeping
 EsInv == [][EsStep(objs, objs')]_mcvars
